@@ -66,7 +66,7 @@ func (b *Block) Key() string {
 
 func (b *Block) QName() string { return b.PkgName + "." + b.Key() }
 
-var clauseKW = []string{"requires", "ensures", "loop", "split", "opaque", "prop", "decreases", "modifies", "assume", "inline", "nooverlay", "unsafe-ok", "havoc", "using", "trusted", "known", "reveal", "forall", "use", "inline", "witness", "return", "uninterpreted"}
+var clauseKW = []string{"requires", "ensures", "loop", "split", "opaque", "prop", "decreases", "modifies", "assume", "inline", "nooverlay", "unsafe-ok", "havoc", "using", "trusted", "known", "reveal", "forall", "use", "inline", "witness", "return", "uninterpreted", "ghostarg"}
 var blockKW = []string{"opaque spec func", "abstract func", "spec func", "lemma", "axiom", "assume func", "func", "assume-dep", "iface", "ghost"}
 
 func startsWithKW(s string, kws []string) string {
